@@ -200,6 +200,11 @@ func (s *Syncer[H]) tailHeight(ctx context.Context, oldTail, head H) (uint64, er
 // estimateTailHeight estimates the tail header based on the current head.
 // It respects the trusting period, ensuring Syncer never initializes off an expired header.
 func (s *Syncer[H]) estimateTailHeight(head H) uint64 {
+	if s.Params.blockTime <= 0 {
+		// block time is not configured: the amount of headers within the trusting period
+		// is unknown, so keep all of them
+		return 1
+	}
 	headersToRetain := uint64(s.Params.trustingPeriod / s.Params.blockTime) //nolint:gosec
 	if headersToRetain >= head.Height() {
 		// means chain is very young so we can keep all headers starting from genesis
@@ -216,6 +221,10 @@ func (s *Syncer[H]) findTailHeight(ctx context.Context, oldTail, head H) (uint64
 	expectedTailTime := head.Time().UTC().Add(-window)
 	currentTailTime := oldTail.Time().UTC()
 	tailTimeDiff := expectedTailTime.Sub(currentTailTime)
+	if s.Params.blockTime <= 0 {
+		// block time is not configured: the tail height cannot be estimated, keep the current tail
+		return oldTail.Height(), nil
+	}
 
 	var estimatedTailHeight uint64
 	switch {
